@@ -189,3 +189,57 @@ pub proof fn lemma_walk_done(c: Collector, c0: Collector, ty0: Ty, done: Set<Ty>
         }
     }
 }
+// ---- the type definitions (collect_defs) ----
+pub struct TastIdent(pub String);
+pub struct StructDef { pub name: TastIdent, pub generics: Vec<TastIdent>, pub fields: Vec<(TastIdent, Ty)> }
+pub struct EnumDef { pub name: TastIdent, pub generics: Vec<TastIdent>, pub variants: Vec<(TastIdent, Vec<Ty>)> }
+#[verifier::external_body] pub struct GlobalGoEnv { _p: () }
+// GlobalGoEnv::structs() / enums(): the definitions the back end knows, as (name, definition) pairs in iteration order
+pub uninterp spec fn env_structs(g: &GlobalGoEnv) -> Seq<(TastIdent, StructDef)>;
+pub uninterp spec fn env_enums(g: &GlobalGoEnv) -> Seq<(TastIdent, EnumDef)>;
+#[verifier::external_body] pub fn goenv_structs(g: &GlobalGoEnv) -> (r: Vec<(TastIdent, StructDef)>) ensures r@ == env_structs(g) { unimplemented!() }
+#[verifier::external_body] pub fn goenv_enums(g: &GlobalGoEnv) -> (r: Vec<(TastIdent, EnumDef)>) ensures r@ == env_enums(g) { unimplemented!() }
+// which definitions gen_type_definition emits: the code's own predicates (shared by gen_type_definition and the collector), uninterpreted here
+pub uninterp spec fn emitted_struct(name: TastIdent, def: StructDef) -> bool;
+pub uninterp spec fn emitted_enum(name: TastIdent, def: EnumDef) -> bool;
+#[verifier::external_body] pub fn struct_def_is_emitted(name: &TastIdent, def: &StructDef) -> (r: bool) ensures r == emitted_struct(*name, *def) { unimplemented!() }
+#[verifier::external_body] pub fn enum_def_is_emitted(name: &TastIdent, def: &EnumDef) -> (r: bool) ensures r == emitted_enum(*name, *def) { unimplemented!() }
+// every type a field of this (emitted) definition is spelled with is covered
+pub open spec fn struct_covered(c: Collector, d: StructDef) -> bool { forall|j: int| 0 <= j < d.fields@.len() ==> covers(c, (#[trigger] d.fields@[j]).1) }
+pub open spec fn variant_covered(c: Collector, v: (TastIdent, Vec<Ty>)) -> bool { forall|j: int| 0 <= j < v.1@.len() ==> covers(c, #[trigger] v.1@[j]) }
+pub open spec fn enum_covered(c: Collector, d: EnumDef) -> bool { forall|i: int| 0 <= i < d.variants@.len() ==> variant_covered(c, #[trigger] d.variants@[i]) }
+pub open spec fn defs_covered(c: Collector, g: &GlobalGoEnv) -> bool {
+    (forall|i: int| 0 <= i < env_structs(g).len() && emitted_struct((#[trigger] env_structs(g)[i]).0, env_structs(g)[i].1) ==> struct_covered(c, env_structs(g)[i].1))
+    && (forall|i: int| 0 <= i < env_enums(g).len() && emitted_enum((#[trigger] env_enums(g)[i]).0, env_enums(g)[i].1) ==> enum_covered(c, env_enums(g)[i].1))
+}
+// a call of collect_type on a closed collector leaves it closed
+pub proof fn lemma_closed_call(c: Collector, c1: Collector, ty: Ty)
+    requires closed(c), post_ok(c, c1, ty),
+    ensures closed(c1), grows(c, c1),
+{
+    assert forall|u: Ty| #[trigger] member(c1, u) implies covers(c1, u) by { if member(c, u) { lemma_covers_mono(c, c1, u); } }
+}
+pub proof fn lemma_struct_covered_mono(a: Collector, b: Collector, d: StructDef)
+    requires grows(a, b), struct_covered(a, d), ensures struct_covered(b, d),
+{ assert forall|j: int| 0 <= j < d.fields@.len() implies covers(b, (#[trigger] d.fields@[j]).1) by { lemma_covers_mono(a, b, d.fields@[j].1); } }
+pub proof fn lemma_variant_covered_mono(a: Collector, b: Collector, v: (TastIdent, Vec<Ty>))
+    requires grows(a, b), variant_covered(a, v), ensures variant_covered(b, v),
+{ assert forall|j: int| 0 <= j < v.1@.len() implies covers(b, #[trigger] v.1@[j]) by { lemma_covers_mono(a, b, v.1@[j]); } }
+pub proof fn lemma_enum_covered_mono(a: Collector, b: Collector, d: EnumDef)
+    requires grows(a, b), enum_covered(a, d), ensures enum_covered(b, d),
+{ assert forall|i: int| 0 <= i < d.variants@.len() implies variant_covered(b, #[trigger] d.variants@[i]) by { lemma_variant_covered_mono(a, b, d.variants@[i]); } }
+pub proof fn lemma_covers_mono_all(a: Collector, b: Collector)
+    requires grows(a, b),
+    ensures forall|ty: Ty| #[trigger] covers(a, ty) ==> covers(b, ty),
+{
+    assert forall|ty: Ty| #[trigger] covers(a, ty) implies covers(b, ty) by { lemma_covers_mono(a, b, ty); }
+}
+// ---- collect_file: the function bodies first (walk not verified here: it reaches the sets only through collect_type), then the definitions ----
+#[verifier::external_body] pub struct AnfFn { _p: () }
+pub struct AnfFile { pub toplevels: Vec<AnfFn> }
+#[verifier::external_body]
+pub fn collect_fn(c: &mut Collector, item: &AnfFn)
+    requires closed(*old(c)),
+    ensures closed(*final(c)), grows(*old(c), *final(c)),
+            forall|g: &GlobalGoEnv| #[trigger] defs_covered(*old(c), g) ==> defs_covered(*final(c), g),      // a consequence of `grows` (lemma_covers_mono)
+{ unimplemented!() }
